@@ -232,6 +232,12 @@ func TestC06(t *testing.T) {
 		for i, o := range outs {
 			if o.Kind == ErrOther && o.Err != nil {
 				w.checkErr(o.Err)
+				if s.FaultAt > 0 && i == s.FaultWriter && s.faultFired && strings.Contains(o.Err.Error(), "40P01") {
+					// the injected deadlock hit a statement outside the retried section (the ledger lock or the state update
+					// of a first write): the request is answered with that error; it is a failed write, nothing more
+					st.Class("injected-deadlock-answered-to-the-caller")
+					continue
+				}
 				w.V("C06", "writer %d got an unexpected error kind: %v\nrequests: %v\nschedule:\n  %s", i, o.Err, descs, strings.Join(s.Trace, "\n  "))
 			}
 		}
